@@ -124,7 +124,7 @@ func (f *frame) evalCommon(in ssa.Instruction) bool {
 			t := x.loadAddr(f.m(), a)
 			if !f.pure {
 				x.critCheck(f.st, a, in.Pos())
-				t = x.define(x.fn.Name()+"_"+in.Name(), x.X.sortOf(in.Type()), t)
+				t = x.define(x.valName(in), x.X.sortOf(in.Type()), t)
 				x.vals[in] = Val{T: t}
 				if a.Kind != aCell {
 					f.assumeT(x.typeInv(in.Type(), t, f.st))
@@ -316,7 +316,7 @@ func (f *frame) evalCommon(in ssa.Instruction) bool {
 			f.check("index", and(sx("<=", "0", idx), sx("<", idx, sx("slen", xv.T))), in.Pos())
 			t := sx("select", sx("sdata", xv.T), idx)
 			if !f.pure && !x.X.bvMode {
-				t = x.define(x.fn.Name()+"_"+in.Name(), "Int", t)
+				t = x.define(x.valName(in), "Int", t)
 				f.assumeT(and(sx("<=", "0", t), sx("<=", t, "255")))
 			}
 			f.set(in, Val{T: f.fromInt(t, in.Type())})
